@@ -1127,10 +1127,10 @@ func runR132(c *core.Ctx) {
 		ast.Inspect(um.Body, func(n ast.Node) bool {
 			if call, ok := n.(*ast.CallExpr); ok {
 				if cf := core.Callee(inf, call); cf != nil {
-					if cf.Name() == "ReadRecord" && readPos == 0 {
+					if core.NameOf(cf) == "ReadRecord" && readPos == 0 {
 						readPos = call.Pos()
 					}
-					if cf.Name() == "populateLocalDefaultValues" && core.RecvNamed(cf) != nil && core.RecvNamed(cf).Obj() == g.Named.Obj() && enclosingFuncLitOf(um, call) == nil {
+					if core.NameOf(cf) == "populateLocalDefaultValues" && core.RecvNamed(cf) != nil && core.RecvNamed(cf).Obj() == g.Named.Obj() && enclosingFuncLitOf(um, call) == nil {
 						popPos = call.Pos()
 					}
 				}
@@ -1609,7 +1609,7 @@ func runR063G(c *core.Ctx) {
 						return true
 					}
 					cf := core.Callee(inf, call)
-					if cf == nil || cf.Name() != "ReadRecord" || !calleeInPkg(cf, codec) {
+					if cf == nil || core.NameOf(cf) != "ReadRecord" || !calleeInPkg(cf, codec) {
 						return true
 					}
 					k++
